@@ -93,6 +93,7 @@ func splitmix(x uint64) uint64 {
 }
 
 type shardResult struct {
+	races    []failFile
 	unit     *unit
 	idx      int
 	dir      string
@@ -373,6 +374,9 @@ func run(id, tier string, replayFiles []string) int {
 					"VERIF_SHARD="+strconv.Itoa(j.idx),
 				)
 				cmd.Env = append(cmd.Env, u.Env...)
+				if u.Mode == "race" {
+					cmd.Env = append(cmd.Env, "GORACE=log_path="+filepath.Join(dir, "race")+" halt_on_error=0 history_size=3")
+				}
 				var out bytes.Buffer
 				cmd.Stdout = &out
 				cmd.Stderr = &out
@@ -398,6 +402,9 @@ func run(id, tier string, replayFiles []string) int {
 					if strings.Contains(o, "panic: test timed out") {
 						r.timedOut = true
 					}
+				}
+				if u.Mode == "race" {
+					r.races = parseRaceLogs(dir, u, id, sseed)
 				}
 				os.RemoveAll(tmp)
 				mu.Lock()
@@ -452,6 +459,24 @@ func run(id, tier string, replayFiles []string) int {
 					}
 				}
 			}
+		}
+		knownSet := map[string]bool{}
+		for _, f := range loadKnown() {
+			if f.Property == id {
+				knownSet[f.Signature] = true
+			}
+		}
+		raceViolation := false
+		for _, rf := range r.races {
+			if knownSet[rf.Signature] {
+				merged.KnownHits[rf.Signature]++
+				continue
+			}
+			violations = append(violations, rf)
+			raceViolation = true
+		}
+		if raceViolation || (len(r.races) > 0 && strings.Contains(r.output, "race detected during execution of test") && !strings.Contains(r.output, "panic:")) {
+			continue
 		}
 		if r.exit != 0 {
 			fb, err := os.ReadFile(filepath.Join(r.dir, "fail.json"))
@@ -632,4 +657,85 @@ func loadKnown() []finding {
 		fatal2("known_findings.json does not parse: %v", err)
 	}
 	return kf.Findings
+}
+
+// parseRaceLogs turns the race detector's reports (GORACE log_path files) into
+// violations keyed by the sorted pair of the top robustirc frames of the two accesses.
+func parseRaceLogs(dir string, u *unit, id string, seed uint64) []failFile {
+	files, _ := filepath.Glob(filepath.Join(dir, "race.*"))
+	var out []failFile
+	seen := map[string]bool{}
+	for _, f := range files {
+		b, err := os.ReadFile(f)
+		if err != nil {
+			continue
+		}
+		for _, rep := range strings.Split(string(b), "WARNING: DATA RACE")[1:] {
+			if k := strings.Index(rep, "=================="); k >= 0 {
+				rep = rep[:k]
+			}
+			// the two access stacks are the first two paragraphs
+			paras := strings.Split(strings.TrimSpace(rep), "\n\n")
+			var tops []string
+			for _, p := range paras {
+				if len(tops) == 2 {
+					break
+				}
+				head := strings.SplitN(p, "\n", 2)[0]
+				if !(strings.Contains(head, "rite at ") || strings.Contains(head, "ead at ")) {
+					continue
+				}
+				top := "?"
+				lines := strings.Split(p, "\n")
+				for i := 1; i+1 < len(lines); i += 2 {
+					fn := strings.TrimSpace(lines[i])
+					loc := strings.TrimSpace(lines[i+1])
+					if strings.Contains(loc, "/internal/") || strings.Contains(fn, "robustirc/robustirc") || strings.Contains(fn, "robustirc.") {
+						if strings.Contains(loc, "zz_verif") {
+							continue
+						}
+						fn = strings.TrimSuffix(fn, "()")
+						if j := strings.LastIndex(fn, "/"); j >= 0 {
+							fn = fn[j+1:]
+						}
+						file := loc
+						if j := strings.LastIndex(file, "/"); j >= 0 {
+							file = file[j+1:]
+						}
+						if j := strings.Index(file, ":"); j >= 0 {
+							file = file[:j]
+						}
+						top = file + ":" + fn
+						break
+					}
+				}
+				tops = append(tops, top)
+			}
+			harnessOnly := false
+			for _, tp := range tops {
+				if tp == "?" {
+					harnessOnly = true // an access made by the harness itself, not by robustirc code
+				}
+			}
+			if harnessOnly || len(tops) < 2 {
+				continue
+			}
+			sort.Strings(tops)
+			sig := "race:" + strings.Join(tops, "|")
+			if seen[sig] {
+				continue
+			}
+			seen[sig] = true
+			if len(rep) > 6000 {
+				rep = rep[:6000]
+			}
+			groups, _ := os.ReadFile(filepath.Join(dir, "groups.jsonl"))
+			if len(groups) > 8000 {
+				groups = groups[len(groups)-8000:]
+			}
+			c, _ := json.Marshal(map[string]interface{}{"race_report": rep, "shard_seed": seed, "groups_of_this_shard": string(groups)})
+			out = append(out, failFile{Property: id, Test: u.Run, Signature: sig, Message: "the race detector reported: " + strings.SplitN(strings.TrimSpace(rep), "\n", 2)[0] + " (" + sig + ")", Case: c})
+		}
+	}
+	return out
 }
